@@ -140,6 +140,7 @@ def run(tier):
             ck.violation('trace-rejected model_pc=%s' % (info or {}).get('model_pc'), 'TraceAudit rejects the run of a cooperative GEX server: %s' % (
                 {k: v for k, v in (info or {}).items() if k != 'events'}), {'srv': srv, 'info': info})
     granular_leg(ck, rnd, tier)
+    variants_leg(ck, servers, rnd, tier)
     for k in pick[:3]:
         ck.sample({'server': {'moduli': list(k[0]), 'style': k[1], 'openssh': k[2], 'gex': list(k[3])}, 'asked': servers[k]['asked'],
                    'reported': servers[k]['reported']})
@@ -149,6 +150,79 @@ def run(tier):
     ck.cov['exhaustive'] = (tier == 'thorough')
     ck.assumptions += ['the fake server hands out g = 1 and a modulus of exactly the selected bit length (the tool verifies neither)']
     return ck.finish()
+
+
+def variants_leg(ck, servers, rnd, tier):
+    """(a) Moduli whose bit length is not a multiple of 8, just below and above the thresholds: the size reported is the bit length of
+    the modulus handed out, not a rounded one.  (b) OpenSSH servers whose identification string is not of the usual
+    `OpenSSH_<version>` form: the follow-up probe and the fallback note depend on the server being OpenSSH, not on the form."""
+    cases, cfgs, meta = [], [], []
+
+    def add(kex_algs, moduli, style, banner, dh, what, asked=None):
+        c = rating.mk_case(len(cases) + 1, kex=['curve25519-sha256'] + kex_algs, key=['ssh-ed25519'], enc=['aes128-ctr'], mac=['hmac-sha2-256'], dh=dh, banner=banner)
+        cases.append(c)
+        cfgs.append(peers.ServerCfg(banner=banner.encode(), kexinit={'kex': ['curve25519-sha256'] + kex_algs, 'key': ['ssh-ed25519'], 'enc': ['aes128-ctr'],
+                                                                     'mac': ['hmac-sha2-256'], 'comp': ['none']},
+                                    hostkeys={'ssh-ed25519': peers.ed25519_blob()}, gex={'style': style, 'moduli': list(moduli)}))
+        meta.append((what, asked))
+    for m in (1023, 1025, 2047, 2049, 3071, 3073, 4095, 8191):
+        for algs in ([GEX256], [GEX1, GEX256]):
+            add(algs, [m], 'roundup', 'SSH-2.0-Generic_1.0', {a: (m, False) for a in algs}, 'odd-size')
+    fb = [k for k in sorted(servers) if k[2] and k[1] == 'openssh' and servers[k]['reported'] and all(v['fallback'] for v in servers[k]['reported'].values())]
+    for k in rnd.sample(fb, min(len(fb), 6 if tier == 'quick' else 40)):
+        e = servers[k]
+        for banner in ('SSH-2.0-OpenSSH_for_Windows_8.1', 'SSH-2.0-OpenSSH', 'SSH-2.0-OpenSSH_8.9p1 Ubuntu-3ubuntu0.6', 'SSH-2.0-OpenSSH-hardened'):
+            algs = [a for a in (GEX256, GEX1) if a in e['gex']]
+            add(algs, k[0], 'openssh', banner, {a: (v['bits'], v['fallback']) for a, v in e['reported'].items()}, 'openssh-banner-form', asked=e['asked'])
+    exp = rating.evaluate(ck, cases, workers=None)
+    scs = [{'argv': [v, '--skip-rate-test', audit.HOST], 'servers': {(audit.HOST, 22): cfg}} for cfg in cfgs for v in ('-n', '-j')]
+    res = runner.run_many(scs)
+    for i, (c, cfg, (what, asked)) in enumerate(zip(cases, cfgs, meta)):
+        for j, view in enumerate(('text', 'json')):
+            r = res[2 * i + j]
+            ck.evaluated()
+            if r.get('harness_error') or r.get('hang'):
+                raise common.Machinery('run failed: %r' % (r.get('harness_error') or 'hang'))
+            replay = {'what': what, 'banner': c['banner'], 'moduli': cfg['gex']['moduli'], 'style': cfg['gex']['style'], 'expected': c['dh'], 'exit': r['exit'],
+                      'stdout': r['stdout'][-2500:]}
+            if r['exit'] not in (0, 2, 3):
+                ck.violation('no-report exit=%s kind=%s' % (r['exit'], what), 'audit ended with status %s' % r['exit'], replay)
+                continue
+            bad = False
+            if view == 'text':
+                tx = report.parse_text(r['stdout'])
+                for a, (bits, _) in c['dh'].items():
+                    line = [x for x in tx['algs']['kex'] if x['name'] == a]
+                    if len(line) != 1 or line[0]['size'] != bits:
+                        ck.violation('gex-size wrong kind=%s' % what, '%s: report shows %s, the server hands out %d bits' % (a, line[0]['size'] if line else None, bits), replay)
+                        bad = True
+                diffs = rating.compare_notes(c, exp[c['id']], text=tx)
+            else:
+                js = report.parse_json(r['stdout'])
+                for ent in report.json_algs(js)['kex']:
+                    if ent['name'] in c['dh'] and ent.get('keysize') != c['dh'][ent['name']][0]:
+                        ck.violation('gex-size view=json kind=%s' % what, '%s: JSON keysize %s, the server hands out %d bits' % (ent['name'], ent.get('keysize'), c['dh'][ent['name']][0]), replay)
+                        bad = True
+                diffs = rating.compare_notes(c, exp[c['id']], js=js)
+            for sig, desc in diffs:
+                if 'cat=kex' in sig:
+                    ck.violation('gex-' + sig + ' kind=%s' % what, desc, replay)
+                    bad = True
+            if asked is not None and view == 'text':
+                seen, cur = {}, {}
+                for ev in r['events']:
+                    if ev.get('ev') == 'send' and ev.get('type') == 20:
+                        cur[ev['n']] = ev['kex'][0] if ev.get('kex') else ''
+                    if ev.get('ev') == 'send' and ev.get('type') == 34:
+                        seen.setdefault(cur.get(ev['n'], '?'), []).append([ev['min'], ev['pref'], ev['max']])
+                for a in c['dh']:
+                    want = [list(q[0]) for q in asked.get(a, [])]
+                    if seen.get(a, []) != want:
+                        ck.violation('gex-requests kind=%s' % what, '%s: requests %r, the probe sequence for an OpenSSH server is %r' % (a, seen.get(a, []), want), replay)
+                        bad = True
+            if not bad:
+                ck.cov['traces_validated_against_impl'] += 1
+                ck.nontrivial((what, c['banner'], tuple(cfg['gex']['moduli']), view))
 
 
 def granular_leg(ck, rnd, tier):
